@@ -798,6 +798,16 @@ impl<'a, 'ast> Visit<'ast> for Rw<'a> {
                     // of the block stay as they are (and are verified), only the statements before them are outlined
                     self.fire("T17.outline_block");
                     let stmts = &i.then_branch.stmts;
+                    // `keep N`: at most N trailing statements, and only plain (compound) assignments `place op= expr;` -
+                    // whatever else ends the block belongs to the outlined part (so a block that lost one of its closing
+                    // assignments still yields verifiable text, and the clause about the assigned place fails by name)
+                    let simple = |st: &syn::Stmt| match st {
+                        syn::Stmt::Expr(syn::Expr::Assign(_), Some(_)) => true,
+                        syn::Stmt::Expr(syn::Expr::Binary(b), Some(_)) => matches!(b.op,
+                            syn::BinOp::AddAssign(_) | syn::BinOp::SubAssign(_) | syn::BinOp::BitXorAssign(_) | syn::BinOp::BitAndAssign(_) | syn::BinOp::BitOrAssign(_)),
+                        _ => false,
+                    };
+                    let keep = stmts.iter().rev().take(keep).take_while(|st| simple(st)).count();
                     if keep > 0 && stmts.len() > keep {
                         let open = self.r(i.then_branch.brace_token.span.open());
                         let first_kept = self.r(stmts[stmts.len() - keep].span());
